@@ -1276,6 +1276,10 @@ func (f *fragment) maxRow(filter *Row) (uint64, uint64) {
 			if count > 0 {
 				return i, count
 			}
+			if i == 0 {
+				// i is unsigned: i-- would wrap around and the loop would never end.
+				break
+			}
 		}
 	}
 	return 0, 0
